@@ -441,6 +441,21 @@ impl Condition for NumericCondition {
                     unreachable!("IN operation should not be used with NumericCondition")
                 }
             }
+        } else if let Some(f) = accessor.get_field_as_f64(&self.field) {
+            // Float payload values: compare exactly as evaluate_at does for f64 columns
+            let rhs = self.value as f64;
+            match self.operation {
+                CompareOp::Gt => f > rhs,
+                CompareOp::Gte => f >= rhs,
+                CompareOp::Lt => f < rhs,
+                CompareOp::Lte => f <= rhs,
+                CompareOp::Eq => f == rhs,
+                CompareOp::Neq => f != rhs,
+                CompareOp::In => {
+                    // IN operation should use InNumericCondition, not NumericCondition
+                    unreachable!("IN operation should not be used with NumericCondition")
+                }
+            }
         } else {
             false
         }
@@ -595,6 +610,10 @@ impl Condition for InNumericCondition {
     fn evaluate_event_direct(&self, accessor: &DirectEventAccessor) -> bool {
         if let Some(num) = accessor.get_field_as_i64(&self.field) {
             self.values.contains(&num)
+        } else if let Some(f) = accessor.get_field_as_f64(&self.field) {
+            // Float payload values: same integral-value rule as evaluate_at for f64 columns
+            let rounded = f.round() as i64;
+            (f - rounded as f64).abs() < f64::EPSILON && self.values.contains(&rounded)
         } else {
             false
         }
